@@ -260,7 +260,9 @@ class CachedStore(Entity):
             Number of entries flushed.
         """
         flushed = 0
-        for key in list(self._dirty_keys):
+        # sorted(): a set of strings iterates in an order that depends on
+        # PYTHONHASHSEED; the write-back order (and so the run) must not.
+        for key in sorted(self._dirty_keys):
             if key in self._cache:
                 value = self._cache[key]
                 yield from self._backing_store.put(key, value)
@@ -326,7 +328,7 @@ class CachedStore(Entity):
         Returns:
             List of dirty keys.
         """
-        return list(self._dirty_keys)
+        return sorted(self._dirty_keys)
 
     def handle_event(self, event: Event) -> None:
         """CachedStore can handle events for cache operations."""
